@@ -26,3 +26,131 @@ def active(name: str) -> Iterator[None]:
         yield
     finally:
         undo()
+
+
+# ----------------------------------------------------------------------------------------------------------------
+# KF-inline-occurs: normalize._inlinable lacks an occurs check (X = X+1 is a test, not an assignment).
+# The corrected predicate cannot be committed: tests/test_math_simplification.py pins 'a :- b(X), X=X*3.' -> 'a :- b((X*3)).'
+# ----------------------------------------------------------------------------------------------------------------
+@repair("inline-occurs")
+def _inline_occurs() -> Callable[[], None]:
+    import ngo.normalize as nz
+    from ngo.utils.ast import collect_ast
+
+    orig = nz._inlinable
+
+    def _inlinable(var, rest):  # type: ignore[no-untyped-def]
+        return orig(var, rest) and var not in collect_ast(rest, "Variable")
+
+    nz._inlinable = _inlinable
+
+    def undo() -> None:
+        nz._inlinable = orig
+
+    return undo
+
+
+# ----------------------------------------------------------------------------------------------------------------
+# KF-dup-scope: duplication factors out a literal set containing a conditional literal / body aggregate whose inner
+# variable is global in the statement but not bound by the rest of the set; in the auxiliary rule it becomes local.
+# The wrong text is pinned by tests/test_literal_duplication.py (bar(N,T): cond(E,N,T) -> cond(__AUX_3,..)).
+# ----------------------------------------------------------------------------------------------------------------
+@repair("dup-scope")
+def _dup_scope() -> Callable[[], None]:
+    from itertools import combinations
+
+    import ngo.literal_duplication as ld
+    from clingo.ast import ASTType
+    from ngo.utils.ast import collect_ast, collect_binding_information_body, global_vars_inside_body
+
+    orig = ld.LiteralCollector._add_occurences_from_body
+
+    def scoped(member):  # type: ignore[no-untyped-def]
+        return member.ast_type == ASTType.ConditionalLiteral or (
+            member.ast_type == ASTType.Literal and member.atom.ast_type in (ASTType.BodyAggregate, ASTType.Aggregate)
+        )
+
+    def patched(self, body, index):  # type: ignore[no-untyped-def]
+        body = list(body)
+        stm = self.prg[index]
+        outside = []
+        if stm.ast_type == ASTType.Rule:
+            outside.append(stm.head)
+        else:
+            outside.extend([stm.weight, stm.priority, *stm.terms])
+        for original_subset in combinations(body, self.size):
+            ok = True
+            for member in original_subset:
+                if not scoped(member):
+                    continue
+                inner = set(collect_ast(member, "Variable")) - global_vars_inside_body([member])
+                others = set()
+                for o in outside + [b for b in body if b is not member and b != member]:
+                    others.update(collect_ast(o, "Variable"))
+                rest_bound = collect_binding_information_body([m for m in original_subset if m != member])[0]
+                if (inner & others) - rest_bound:
+                    ok = False
+            if not ok:
+                continue
+            _, unbound = collect_binding_information_body(original_subset)
+            if not unbound:
+                new_subset, oldvars2newvars = ld.anonymize_variables(original_subset)
+                newvars2oldvars = {v: k for k, v in oldvars2newvars.items()}
+                self.occurences[tuple(new_subset)].append(
+                    ld.RuleRebuilder(index, None, None, original_subset, tuple(new_subset), oldvars2newvars, newvars2oldvars)
+                )
+
+    ld.LiteralCollector._add_occurences_from_body = patched
+
+    def undo() -> None:
+        ld.LiteralCollector._add_occurences_from_body = orig
+
+    return undo
+
+
+# ----------------------------------------------------------------------------------------------------------------
+# KF-dup-rec-cond: duplication factors the condition of a conditional literal although the condition is positively
+# recursive with the head of the rule: 'aux <- F' is only one half of a definition, with aux in the antecedent of the
+# nested implication the reduct gets a smaller model and answer sets are lost.
+# ----------------------------------------------------------------------------------------------------------------
+@repair("dup-rec-cond")
+def _dup_rec_cond() -> Callable[[], None]:
+    import networkx as nx
+
+    import ngo.literal_duplication as ld
+    from clingo.ast import ASTType, Sign
+    from ngo.utils.ast import SIGNS, body_predicates, headderivable_predicates, literal_predicate
+
+    orig = ld.LiteralCollector._add_occurences_from_conditionals
+
+    def patched(self, body, index):  # type: ignore[no-untyped-def]
+        graph = nx.DiGraph()
+        for stm in self.prg:
+            if stm.ast_type == ASTType.Rule:
+                heads = [h.pred for h in headderivable_predicates(stm)]
+                for b in body_predicates(stm, {Sign.NoSign, Sign.DoubleNegation}):
+                    for h in heads:
+                        graph.add_edge(b.pred, h)
+        stm = self.prg[index]
+        heads = {h.pred for h in headderivable_predicates(stm)} if stm.ast_type == ASTType.Rule else set()
+        recursive = set()
+        for h in heads:
+            if h in graph:
+                recursive |= nx.ancestors(graph, h) & (nx.descendants(graph, h) | {h})
+                if graph.has_edge(h, h):
+                    recursive.add(h)
+        new_body = []
+        for lit in body:
+            if lit.ast_type == ASTType.ConditionalLiteral:
+                preds = {p.pred for c in lit.condition for p in literal_predicate(c, SIGNS)}
+                if preds & recursive:
+                    continue
+            new_body.append(lit)
+        return orig(self, new_body, index)
+
+    ld.LiteralCollector._add_occurences_from_conditionals = patched
+
+    def undo() -> None:
+        ld.LiteralCollector._add_occurences_from_conditionals = orig
+
+    return undo
